@@ -7,9 +7,9 @@
    the tree, in order.  Part B (second half of this file) shows that parse_segment establishes
    the invariant for every line of a well-formed table segment or Z-segment. *)
 From Coq Require Import List Bool Arith ZArith NArith Lia Init.Byte.
-From HL7 Require Import Lib.Str Model.Ec Model.Result Model.Ref Model.Tree Model.Parser Model.Encode.
+From HL7 Require Import Lib.Str Model.Ec Model.Result Model.Ref Model.Tree Model.Parser Model.Encode Model.Wf.
 From HL7 Require Import Proofs.SplitJoin Proofs.LevelCodec Proofs.RoundTripStr Proofs.RoundTripCore
-  Proofs.RoundTripSeg Proofs.NoDrop.
+  Proofs.RoundTripZ Proofs.RoundTripSeg Proofs.NoDrop.
 Import ListNotations.
 Open Scope bs_scope.
 
@@ -181,7 +181,10 @@ Notation base := (base t).
 (* components                                                           *)
 
 Definition comp_enc_leaves (c : comp) : list str := keep_nb (map sc_enc (c_children c)).
-Definition sub_clean (x : sub) : Prop := delim_free e (sc_enc x).
+(* an encoded leaf contains none of the four separators *)
+Definition sep_free (x : str) : Prop :=
+  bmem (fsep e) x = false /\ bmem (csep e) x = false /\ bmem (rsep e) x = false /\ bmem (ssep e) x = false.
+Definition sub_clean (x : sub) : Prop := sep_free (sc_enc x).
 
 Definition comp_shape (c : comp) : Prop :=
   base (c_dt c) || opt_is_none (c_dt c) = true \/
@@ -200,7 +203,7 @@ Proof.
 Qed.
 
 Definition clean3 (s : str) : Prop :=
-  bmem (fsep e) s = false /\ bmem (csep e) s = false /\ bmem (rsep e) s = false /\ bmem CR s = false.
+  bmem (fsep e) s = false /\ bmem (csep e) s = false /\ bmem (rsep e) s = false.
 
 Lemma seps : fsep e <> csep e /\ fsep e <> rsep e /\ fsep e <> ssep e /\
              csep e <> rsep e /\ csep e <> ssep e /\ rsep e <> ssep e.
@@ -220,9 +223,9 @@ Proof.
   split.
   - unfold comp_text_leaves. rewrite split_join_keep.
     + rewrite keep_nb_slot_texts, M. reflexivity.
-    + apply Hfree. intros x Hx. now destruct (Hcl x Hx) as [_ [_ [_ [H _]]]].
+    + apply Hfree. intros x Hx. now destruct (Hcl x Hx) as [_ [_ [_ H]]].
   - repeat split; apply bjoin_free; auto; try (apply cr_ne; cbn; tauto); apply Hfree; intros x Hx;
-      destruct (Hcl x Hx) as [H1 [H2 [H3 [H4 H5]]]]; assumption.
+      destruct (Hcl x Hx) as [H1 [H2 [H3 H4]]]; assumption.
 Qed.
 
 (* ------------------------------------------------------------------ *)
@@ -308,7 +311,7 @@ Proof.
     + exists (generic_slots c_name (f_st f) (f_children f)). split; [reflexivity|]. now apply generic_slots_members.
 Qed.
 
-Definition clean2 (s : str) : Prop := bmem (fsep e) s = false /\ bmem (rsep e) s = false /\ bmem CR s = false.
+Definition clean2 (s : str) : Prop := bmem (fsep e) s = false /\ bmem (rsep e) s = false.
 
 Lemma comp_text_leaves_nil : comp_text_leaves e [] = [].
 Proof. reflexivity. Qed.
@@ -329,7 +332,7 @@ Proof.
       intros c Hcin. exact (proj1 (enc_comp_leaves c (Hc c Hcin))).
     + apply Hfree. intros c Hcin. now destruct (proj2 (enc_comp_leaves c (Hc c Hcin))) as [_ [H _]].
   - repeat split; apply bjoin_free; auto; try (apply cr_ne; cbn; tauto); apply Hfree; intros c Hcin;
-      destruct (proj2 (enc_comp_leaves c (Hc c Hcin))) as [H1 [H2 [H3 H4]]]; assumption.
+      destruct (proj2 (enc_comp_leaves c (Hc c Hcin))) as [H1 [H2 H3]]; assumption.
 Qed.
 
 (* ------------------------------------------------------------------ *)
@@ -435,7 +438,8 @@ Proof.
 Qed.
 
 Theorem enc_segment_leaves s : seg_ok s ->
-  exists out, enc_segment t e s false = Ok out /\ line_text_leaves e out = seg_enc_leaves s.
+  exists out, enc_segment t e s false = Ok out /\
+              (bmem CR out = false -> line_text_leaves e out = seg_enc_leaves s).
 Proof.
   intros Hok. pose proof (seg_slots_members s Hok) as M.
   destruct Hok as [n [gs [u [H3 [Hup [Hmsh [Ho [Hla [Hl [Hch [Hn [HK [Hu Hfo]]]]]]]]]]]]].
@@ -453,11 +457,15 @@ Proof.
   rewrite Forall_forall in Hfo'.
   assert (Hfs : Forall (fun p => bmem (fsep e) p = false) (map slot_line_text slots)).
   { apply Hclean; [exact B|]. intros f Hf. now destruct (proj2 (proj2 (fenc_ok f (Hfo' f Hf)))) as [H _]. }
-  assert (Hcr : Forall (fun p => bmem CR p = false) (map slot_line_text slots)).
-  { apply Hclean; [apply cr_ne; cbn; tauto|]. intros f Hf. now destruct (proj2 (proj2 (fenc_ok f (Hfo' f Hf)))) as [_ [_ H]]. }
+  intros HCR.
+  assert (Hcr : bmem CR (bjoin (fsep e) (map slot_line_text slots)) = false).
+  { rewrite (bjoin_sn e (s_name s)) in HCR. unfold bmem, mem in *. rewrite existsb_app in HCR.
+    apply orb_false_elim in HCR. destruct HCR as [_ HCR].
+    destruct (map slot_line_text slots) eqn:Em; [reflexivity|]. cbn [existsb] in HCR.
+    apply orb_false_elim in HCR. exact (proj2 HCR). }
   unfold line_text_leaves.
   rewrite (seg_name_sn e (s_name s) H3), (seg_rest_sn e (s_name s) H3 Hup Hmsh).
-  rewrite strip_cr_none by (apply bjoin_free; [apply cr_ne; cbn; tauto|exact Hcr]).
+  rewrite strip_cr_none by exact Hcr.
   pose proof (sn_no_msh (s_name s) H3 Hup Hmsh) as Hnm.
   rewrite (flat_map_ext_in' _ (fun p => flat_map (field_text_leaves e) (bsplit (rsep e) (snd p)))).
   2:{ intros [i txt] _. now apply fieldpos_nonmsh. }
@@ -471,7 +479,7 @@ Proof.
   - rewrite flat_map_map'.
     apply flat_map_ext_in'. intros f Hf. exact (proj1 (proj2 (fenc_ok f (Hfo' f (Hreps f Hf))))).
   - rewrite Forall_map, Forall_forall. intros f Hf.
-    now destruct (proj2 (proj2 (fenc_ok f (Hfo' f (Hreps f Hf))))) as [_ [H _]].
+    now destruct (proj2 (proj2 (fenc_ok f (Hfo' f (Hreps f Hf))))) as [_ H].
 Qed.
 
 End EncLeaves.
@@ -810,4 +818,543 @@ Proof.
       unfold comp_unknown. now rewrite Hi, (Hdts c Hin).
 Qed.
 
+(* (c) a field whose datatype is the struct D: named components, surplus ones unnamed *)
+Section ComplexField.
+Variable D : str.
+Variable rows : list srow.
+Variable st : structure.
+Hypothesis Hg : good_struct t D rows.
+Hypothesis Hs : rows_structure t D CMP rows st.
+(* no component of the tables is called D_j beyond the components D defines *)
+Hypothesis Hno : forall j, length rows < j -> slookup (name_idx D j) (t_components t) = None.
+
+Lemma Dok : dt_name_ok t D. Proof. exact (proj1 Hg). Qed.
+
+Lemma comps_step_unfold j s0 rest :
+  parse_components_aux t TOLERANT e leaf (Some D) (Some st) ((j, s0) :: rest) =
+  (if negb (is_blank s0) then
+     bind (parse_component t TOLERANT e leaf s0 (Some (name_idx D j)) None (ref_in (Some st) (name_idx D j)))
+          (fun x => bind (parse_components_aux t TOLERANT e leaf (Some D) (Some st) rest) (fun xs => Ok (x :: xs)))
+   else parse_components_aux t TOLERANT e leaf (Some D) (Some st) rest).
+Proof.
+  cbn [parse_components_aux]. rewrite (dn_not_base t D Dok), (dn_is_varies t D Dok). cbn [opt_is_none orb str_of_opt].
+  assert (Hm : has_map (Some st) = true) by (unfold has_map; now rewrite (rs_ordered _ _ _ _ _ Hs)).
+  rewrite Hm, (name_idx_not_varies_us D j (dn_not_varies t D Dok)), !orb_false_r. reflexivity.
+Qed.
+
+Lemma parse_comps_beyond : forall cs a kids, length rows <= a ->
+  parse_components_aux t TOLERANT e leaf (Some D) (Some st) (combine (seq (S a) (length cs)) cs) = Ok kids ->
+  forall x, In x kids -> c_name x = None /\ comp_shape t x.
+Proof.
+  induction cs as [|s0 cs IH]; intros a kids Ha H x Hx.
+  - cbn in H. injection H as <-. destruct Hx.
+  - cbn [length seq combine] in H. rewrite comps_step_unfold in H.
+    unfold ref_in in H. rewrite (rs_ordered _ _ _ _ _ Hs) in H. rewrite (rs_beyond _ _ _ _ _ Hs (S a)) in H by lia.
+    cbn [option_map] in H.
+    destruct (negb (is_blank s0)).
+    + destruct (parse_component t TOLERANT e leaf s0 (Some (name_idx D (S a))) None None) as [y|] eqn:Ey; cbn [bind] in H; [|discriminate].
+      destruct (parse_components_aux t TOLERANT e leaf (Some D) (Some st) (combine (seq (S (S a)) (length cs)) cs)) as [ys|] eqn:Eys;
+        cbn [bind] in H; [|discriminate].
+      injection H as <-. destruct Hx as [<-|Hx]; [|apply (IH (S a) ys); [lia|exact Eys|exact Hx]].
+      destruct (parse_component_surplus_shape D (S a) s0 y Dok (Hno (S a) ltac:(lia)) Ey) as [Hn Hd].
+      split; [exact Hn|now apply comp_shape_untyped].
+    + apply (IH (S a) kids); [lia|exact H|exact Hx].
+Qed.
+
+Lemma parse_comps_shape : forall cs a kids,
+  parse_components_aux t TOLERANT e leaf (Some D) (Some st) (combine (seq (S a) (length cs)) cs) = Ok kids ->
+  Forall (comp_shape t) kids /\
+  exists gs u, kids = concat gs ++ u /\
+               groups_ok c_name (map (name_idx D) (seq (S a) (length rows - a))) gs /\
+               forall x, In x u -> name_none_or_st (c_name x) = true.
+Proof.
+  induction cs as [|s0 cs IH]; intros a kids H.
+  - cbn in H. injection H as <-. split; [constructor|]. exists [], []. repeat split. intros x [].
+  - destruct (le_lt_dec (length rows) a) as [Ha|Ha].
+    + pose proof (parse_comps_beyond (s0 :: cs) a kids Ha H) as B. split.
+      * rewrite Forall_forall. intros x Hx. exact (proj2 (B x Hx)).
+      * exists [], kids. split; [reflexivity|]. split; [exact I|]. intros x Hx. now rewrite (proj1 (B x Hx)).
+    + cbn [length seq combine] in H. rewrite comps_step_unfold in H.
+      destruct (nth_error rows a) as [row|] eqn:En; [|apply nth_error_None in En; lia].
+      replace (length rows - a) with (S (length rows - S a)) by lia. cbn [seq map].
+      destruct (negb (is_blank s0)).
+      * destruct (parse_component t TOLERANT e leaf s0 (Some (name_idx D (S a))) None (ref_in (Some st) (name_idx D (S a)))) as [y|] eqn:Ey;
+          cbn [bind] in H; [|discriminate].
+        destruct (parse_components_aux t TOLERANT e leaf (Some D) (Some st) (combine (seq (S (S a)) (length cs)) cs)) as [ys|] eqn:Eys;
+          cbn [bind] in H; [|discriminate].
+        injection H as <-. destruct (IH (S a) ys Eys) as [Hall [gs [u [-> [Hgs Hu]]]]].
+        assert (Y : c_name y = Some (name_idx D (S a)) /\ comp_shape t y).
+        { destruct (proj2 (proj2 Hg) row (nth_error_In _ _ En)) as [[i [b [Er [Ei Hb]]]]|[i [D2 [rows2 [Er [Ei [Hl [HD2 Hf]]]]]]]];
+            destruct (rows_structure_ref_in t D CMP rows st a row _ Hs En Er) as [_ Href]; rewrite Href in Ey.
+          - exact (parse_component_leaf_shape D (S a) i b s0 y Dok Ei Hb Ey).
+          - exact (parse_component_complex_shape D (S a) i D2 rows2 s0 y Dok HD2 Ei Hl Hf Ey). }
+        split; [constructor; [exact (proj2 Y)|exact Hall]|].
+        exists ([y] :: gs), u. split; [reflexivity|]. split; [|exact Hu]. cbn [groups_ok]. split; [|exact Hgs].
+        intros x [<-|[]]. exact (proj1 Y).
+      * destruct (IH (S a) kids H) as [Hall [gs [u [-> [Hgs Hu]]]]]. split; [exact Hall|].
+        exists ([] :: gs), u. split; [reflexivity|]. split; [|exact Hu]. cbn [groups_ok]. split; [intros x []|exact Hgs].
+Qed.
+
+Lemma parse_field_complex_shape text name ref fv n f :
+  field_ctor t name ref fv = Ok (mk_field_rec n (Some D) (Some st) []) -> is_msh12 name = false -> not_msh12o n ->
+  parse_field t TOLERANT e leaf text name ref fv = Ok f -> f_name f = n /\ field_shape t f.
+Proof.
+  intros Hc Hm Hn. rewrite parse_field_unfold, Hc, Hm. cbn [bind f_dt f_st].
+  unfold parse_components.
+  destruct (parse_components_aux t TOLERANT e leaf (Some D) (Some st) (indexed (bsplit (csep e) text))) as [kids|] eqn:Ek;
+    cbn [bind]; [|discriminate].
+  rewrite (dn_not_base t D Dok). rewrite andb_false_r. cbn [andb].
+  intros H. apply add_comps_full in H. subst f. cbn [f_name f_dt f_st f_children app].
+  destruct (parse_comps_shape (bsplit (csep e) text) 0 kids Ek) as [Hall [gs [u [-> [Hgs Hu]]]]].
+  split; [reflexivity|]. split; [exact Hn|]. split; [exact Hall|].
+  right. right. cbn [f_dt f_st f_children]. split; [apply (dn_is_varies t D Dok)|].
+  rewrite (ordered_of_rows t D CMP rows st Hs). split; [apply name_idx_NoDup|]. split; [apply names_no_ST|].
+  exists gs, u. rewrite Nat.sub_0_r in Hgs. auto.
+Qed.
+
+End ComplexField.
+
+(* ---------- the field loop of a segment that is not MSH ---------- *)
+
+Lemma parse_reps_forall (P : field -> Prop) name ref fv :
+  (forall r x, parse_field t TOLERANT e leaf r name ref fv = Ok x -> P x) ->
+  forall reps g, parse_reps t TOLERANT e leaf reps name ref fv = Ok g -> forall x, In x g -> P x.
+Proof.
+  intros HP. induction reps as [|r reps IH]; intros g H x Hx; cbn [parse_reps] in H.
+  - injection H as <-. destruct Hx.
+  - destruct (parse_field t TOLERANT e leaf r name ref fv) as [y|] eqn:Ey; cbn [bind] in H; [|discriminate].
+    destruct (parse_reps t TOLERANT e leaf reps name ref fv) as [ys|] eqn:Eys; cbn [bind] in H; [|discriminate].
+    injection H as <-. destruct Hx as [<-|Hx]; [now apply (HP r)|now apply (IH ys)].
+Qed.
+
+Section FieldLoop.
+Variable sn : str.
+Variable st : structure.
+Variable inf : bool.
+Variable n : nat.
+Hypothesis Hnm : no_msh sn.
+Hypothesis Hm : has_map (Some st) = true.
+(* positions the segment defines *)
+Hypothesis Hin : forall i, 1 <= i <= n -> forall r x,
+  parse_field t TOLERANT e leaf r (Some (name_idx sn i)) (ref_in (Some st) (name_idx sn i)) inf = Ok x ->
+  f_name x = Some (name_idx sn i) /\ field_shape t x.
+(* positions beyond: named <SEG>_i when the segment is open-ended, unnamed otherwise *)
+Hypothesis Hout : forall i, n < i -> ref_in (Some st) (name_idx sn i) = None /\ forall r x,
+  parse_field t TOLERANT e leaf r (Some (name_idx sn i)) None inf = Ok x ->
+  f_name x = (if inf then Some (name_idx sn i) else None) /\ field_shape t x.
+
+Lemma fields_step_unfold i f rest :
+  parse_fields_aux t TOLERANT e leaf sn (Some st) inf ((i, f) :: rest) =
+  bind (if negb (is_blank f)
+        then parse_reps t TOLERANT e leaf (bsplit (rsep e) f) (Some (name_idx sn i)) (ref_in (Some st) (name_idx sn i)) inf
+        else Ok [])
+       (fun here => bind (parse_fields_aux t TOLERANT e leaf sn (Some st) inf rest) (fun xs => Ok (here ++ xs))).
+Proof. cbn [parse_fields_aux]. destruct (Hnm i) as [M2 M1]. now rewrite Hm, M2, M1. Qed.
+
+Lemma parse_fields_beyond_closed : inf = false -> forall fs a kids, n <= a ->
+  parse_fields_aux t TOLERANT e leaf sn (Some st) inf (combine (seq (S a) (length fs)) fs) = Ok kids ->
+  forall x, In x kids -> f_name x = None /\ field_shape t x.
+Proof.
+  intros Hi. induction fs as [|f fs IH]; intros a kids Ha H x Hx.
+  - cbn in H. injection H as <-. destruct Hx.
+  - cbn [length seq combine] in H. rewrite fields_step_unfold in H.
+    destruct (Hout (S a) ltac:(lia)) as [Hr Hp]. rewrite Hr in H.
+    match type of H with bind ?r _ = _ => destruct r as [here|] eqn:Eh; cbn [bind] in H; [|discriminate] end.
+    destruct (parse_fields_aux t TOLERANT e leaf sn (Some st) inf (combine (seq (S (S a)) (length fs)) fs)) as [xs|] eqn:Exs;
+      cbn [bind] in H; [|discriminate].
+    injection H as <-. apply in_app_or in Hx. destruct Hx as [Hx|Hx]; [|apply (IH (S a) xs); [lia|exact Exs|exact Hx]].
+    destruct (negb (is_blank f)); [|injection Eh as <-; destruct Hx].
+    pose proof (parse_reps_forall (fun x => f_name x = None /\ field_shape t x) _ _ _
+                  (fun r y Hy => match Hp r y Hy with conj A B => conj (eq_trans A (f_equal (fun b : bool => if b then Some (name_idx sn (S a)) else None) Hi)) B end)
+                  _ _ Eh x Hx) as R.
+    exact R.
+Qed.
+
+Lemma parse_fields_shape : forall fs a kids,
+  parse_fields_aux t TOLERANT e leaf sn (Some st) inf (combine (seq (S a) (length fs)) fs) = Ok kids ->
+  Forall (field_shape t) kids /\
+  exists gs u, kids = concat gs ++ u /\ groups_named sn (S a) gs /\ (forall x, In x u -> f_name x = None) /\
+               (inf = false -> length gs <= n - a).
+Proof.
+  induction fs as [|f fs IH]; intros a kids H.
+  - cbn in H. injection H as <-. split; [constructor|]. exists [], []. repeat split; try (intros x []). cbn. lia.
+  - destruct (le_lt_dec n a) as [Ha|Ha]; [destruct (Bool.bool_dec inf true) as [Ei|Ei]; [|apply Bool.not_true_is_false in Ei]|].
+    + (* beyond, open-ended: still named *)
+      cbn [length seq combine] in H. rewrite fields_step_unfold in H.
+      destruct (Hout (S a) ltac:(lia)) as [Hr Hp]. rewrite Hr in H.
+      match type of H with bind ?r _ = _ => destruct r as [here|] eqn:Eh; cbn [bind] in H; [|discriminate] end.
+      destruct (parse_fields_aux t TOLERANT e leaf sn (Some st) inf (combine (seq (S (S a)) (length fs)) fs)) as [xs|] eqn:Exs;
+        cbn [bind] in H; [|discriminate].
+      injection H as <-. destruct (IH (S a) xs Exs) as [Hall [gs [u [-> [Hgs [Hu _]]]]]].
+      assert (Hhere : forall x, In x here -> f_name x = Some (name_idx sn (S a)) /\ field_shape t x).
+      { destruct (negb (is_blank f)); [|injection Eh as <-; intros x []].
+        apply (parse_reps_forall (fun x => f_name x = Some (name_idx sn (S a)) /\ field_shape t x) _ _ _) with (2 := Eh).
+        intros r y Hy. destruct (Hp r y Hy) as [A B]. rewrite Ei in A. now split. }
+      split.
+      * apply Forall_app. split; [|exact Hall]. rewrite Forall_forall. intros x Hx. exact (proj2 (Hhere x Hx)).
+      * exists (here :: gs), u. rewrite app_assoc. split; [reflexivity|]. split; [|split; [exact Hu|congruence]].
+        cbn [groups_named]. split; [|exact Hgs]. intros x Hx. exact (proj1 (Hhere x Hx)).
+    + (* beyond, closed: everything that follows is unnamed *)
+      pose proof (parse_fields_beyond_closed Ei (f :: fs) a kids Ha H) as B. split.
+      * rewrite Forall_forall. intros x Hx. exact (proj2 (B x Hx)).
+      * exists [], kids. split; [reflexivity|]. split; [exact I|]. split; [intros x Hx; exact (proj1 (B x Hx))|]. intros _. cbn. lia.
+    + (* a defined position *)
+      cbn [length seq combine] in H. rewrite fields_step_unfold in H.
+      match type of H with bind ?r _ = _ => destruct r as [here|] eqn:Eh; cbn [bind] in H; [|discriminate] end.
+      destruct (parse_fields_aux t TOLERANT e leaf sn (Some st) inf (combine (seq (S (S a)) (length fs)) fs)) as [xs|] eqn:Exs;
+        cbn [bind] in H; [|discriminate].
+      injection H as <-. destruct (IH (S a) xs Exs) as [Hall [gs [u [-> [Hgs [Hu Hlen]]]]]].
+      assert (Hhere : forall x, In x here -> f_name x = Some (name_idx sn (S a)) /\ field_shape t x).
+      { destruct (negb (is_blank f)); [|injection Eh as <-; intros x []].
+        exact (parse_reps_forall (fun x => f_name x = Some (name_idx sn (S a)) /\ field_shape t x) _ _ _
+                 (Hin (S a) ltac:(lia)) _ _ Eh). }
+      split.
+      * apply Forall_app. split; [|exact Hall]. rewrite Forall_forall. intros x Hx. exact (proj2 (Hhere x Hx)).
+      * exists (here :: gs), u. rewrite app_assoc. split; [reflexivity|]. split; [|split; [exact Hu|]].
+        -- cbn [groups_named]. split; [|exact Hgs]. intros x Hx. exact (proj1 (Hhere x Hx)).
+        -- intros Hi. specialize (Hlen Hi). cbn [length]. lia.
+Qed.
+
+(* ---------- the whole segment ---------- *)
+
+Lemma concat_remove_trailing {A} (gs : list (list A)) : concat (remove_trailing nilb gs) = concat gs.
+Proof.
+  destruct (remove_trailing_prefix nilb gs) as [m [E Hm']]. rewrite E at 2. rewrite concat_app.
+  assert (concat m = []) as ->; [|now rewrite app_nil_r].
+  clear E. induction m as [|g m IH]; [reflexivity|]. cbn [forallb] in Hm'. apply andb_prop in Hm'. destruct Hm' as [Hg Hm'].
+  destruct g; [|discriminate]. cbn [concat app]. now apply IH.
+Qed.
+
+Lemma groups_named_prefix s0 : forall l1 l2 a, groups_named s0 a (l1 ++ l2) -> groups_named s0 a l1.
+Proof.
+  induction l1 as [|g l1 IH]; intros l2 a H; [exact I|]. cbn [app groups_named] in *. destruct H as [Hg H].
+  split; [exact Hg|now apply (IH l2)].
+Qed.
+
+Lemma groups_named_last s0 : forall l1 g a, groups_named s0 a (l1 ++ [g]) ->
+  forall x, In x g -> f_name x = Some (name_idx s0 (a + length l1)).
+Proof.
+  induction l1 as [|g0 l1 IH]; intros g a H x Hx.
+  - cbn [app groups_named length] in *. rewrite Nat.add_0_r. now apply (proj1 H).
+  - cbn [app groups_named length] in *. destruct H as [_ H]. replace (a + S (length l1)) with (S a + length l1) by lia.
+    now apply (IH g (S a)).
+Qed.
+
+Hypothesis H3 : length sn = 3.
+Hypothesis Hup : upper sn = sn.
+Hypothesis Hmsh : streqb sn (unbs "MSH") = false.
+Hypothesis Ho : st_ordered st = Some (map (name_idx sn) (seq 1 n)).
+
+Lemma parse_segment_in_shape text s : seg_name_of text = sn ->
+  parse_segment_in t TOLERANT e leaf (mk_seg sn st inf (N.of_nat n) (N.of_nat n) []) text = Ok s -> seg_shape t s.
+Proof.
+  intros Hname. unfold parse_segment_in. rewrite Hname. cbn [s_st s_inf]. unfold parse_fields, indexed.
+  match goal with |- bind ?r _ = _ -> _ => destruct r as [kids|] eqn:Ek; cbn [bind]; [|discriminate] end.
+  intros H. destruct (parse_fields_shape _ 0 kids Ek) as [Hall [gs [u [-> [Hgs [Hu Hlen]]]]]].
+  apply add_fields_full in H. cbn [s_name s_st s_inf s_last_allowed s_last s_children app] in H.
+  destruct H as [Hn [Hst' [Hinf [Hla [Hch [Hlast Hidx]]]]]].
+  exists n, (remove_trailing nilb gs), u.
+  rewrite Hn, Hst', Hinf, Hla, Hch, concat_remove_trailing.
+  do 4 (split; [assumption|]). split; [reflexivity|]. split; [exact Hlast|]. split; [reflexivity|].
+  destruct (remove_trailing_prefix nilb gs) as [m [E Hm']].
+  split; [rewrite E in Hgs; now apply (groups_named_prefix sn _ m)|].
+  split; [|split; [exact Hu|exact Hall]].
+  destruct inf eqn:Ei.
+  - pose proof (remove_trailing_last_kept nilb gs) as Hk.
+    destruct (remove_trailing nilb gs) as [|g0 l0 _] eqn:Er using rev_ind; [cbn; lia|].
+    rewrite rev_app_distr in Hk. cbn [rev app] in Hk. destruct g0 as [|x0 g0]; [discriminate|].
+    rewrite E in Hgs. apply (groups_named_prefix sn _ m) in Hgs.
+    pose proof (groups_named_last sn l0 (x0 :: g0) 1 Hgs x0 (or_introl eq_refl)) as Hx0.
+    assert (Hin0 : In x0 (concat gs ++ u)).
+    { apply in_or_app. left. rewrite E, concat_app. apply in_or_app. left. rewrite concat_app. apply in_or_app. right.
+      cbn [concat]. apply in_or_app. left. now left. }
+    specialize (Hidx eq_refl H3 x0 (1 + length l0) Hin0 Hx0).
+    rewrite app_length. cbn [length]. lia.
+  - assert (L : length (remove_trailing nilb gs) <= length gs).
+    { rewrite E at 2. rewrite app_length. lia. }
+    specialize (Hlen eq_refl). lia.
+Qed.
+
+End FieldLoop.
+
+(* ---------- table segments (not MSH) ---------- *)
+
+Lemma field_ctor_beyond sn i fv : length sn = 3 -> upper sn = sn -> valid_z_segment_name sn = false ->
+  slookup (name_idx sn i) (t_fields t) = None ->
+  field_ctor t (Some (name_idx sn i)) None fv =
+  Ok (if fv then mk_field_rec (Some (name_idx sn i)) (Some (unbs "varies")) (Some st_var) []
+      else mk_field_rec None None None []).
+Proof.
+  intros H3 Hup Hz Hno.
+  assert (Hun : upper (name_idx sn i) = name_idx sn i) by now rewrite name_idx_upper, Hup.
+  unfold field_ctor. unfold mk_field at 1. cbn [is_strict andb]. rewrite is_varies_none. cbn [andb].
+  unfold structure_for at 1, load_reference. cbn [table_of]. rewrite Hun, Hno.
+  rewrite (not_z_field_name sn i H3 Hup Hz). cbn [bind]. destruct fv; [|reflexivity].
+  unfold mk_field. cbn [is_strict andb]. rewrite is_varies_none. cbn [andb]. rewrite Hun. reflexivity.
+Qed.
+
+Section TableShape.
+Variable sn : str.
+Variable srows : list srow.
+Hypothesis H3 : length sn = 3.
+Hypothesis Hup : upper sn = sn.
+Hypothesis Hmsh : streqb sn (unbs "MSH") = false.
+Hypothesis Hz : valid_z_segment_name sn = false.
+Hypothesis Hl : slookup sn (t_segments t) = Some (SSeqIn false srows None).
+Hypothesis Hc : rows_contiguous sn FIE 1 srows = true.
+Hypothesis Hrows : forall row, In row srows -> field_row_ok t row.
+Hypothesis Hnof : forall i, length srows < i -> slookup (name_idx sn i) (t_fields t) = None.
+Hypothesis HnoC : forall row inf D rows, In row srows -> row_ref t row = Some (SSeqDt inf) -> i_dt inf = Some D ->
+  slookup D (t_structs t) = Some rows -> forall j, length rows < j -> slookup (name_idx D j) (t_components t) = None.
+
+Theorem parse_table_segment_shape text s : seg_name_of text = sn ->
+  parse_segment t TOLERANT e leaf text None = Ok s -> seg_shape t s.
+Proof.
+  intros Hname.
+  assert (Hres : rows_resolved t srows).
+  { intros y Hy Ey. destruct (Hrows y Hy) as [fr [E' _]]. congruence. }
+  assert (Hinfo : forall row, In row srows -> exists r, row_ref t row = Some r /\ ref_info r <> None).
+  { intros row Hy. destruct (Hrows row Hy) as [fr [E' K]]. exists fr. split; [exact E'|].
+    destruct fr; try contradiction; discriminate. }
+  destruct (mk_segment_table t sn srows H3 Hup Hz Hl Hc Hres Hinfo) as [st [inf [Hmk [Hs _]]]].
+  unfold parse_segment. rewrite Hname, Hmk. cbn [bind].
+  assert (Hm : has_map (Some st) = true) by (unfold has_map; now rewrite (rs_ordered _ _ _ _ _ Hs)).
+  apply (parse_segment_in_shape sn st inf (length srows) (sn_no_msh sn H3 Hup Hmsh) Hm); auto.
+  - (* defined positions *)
+    intros i Hi r x Hp. destruct i as [|i0]; [lia|].
+    destruct (nth_error srows i0) as [row|] eqn:En; [|apply nth_error_None in En; lia].
+    destruct (Hrows row (nth_error_In _ _ En)) as [fr [Hr K]].
+    destruct (rows_structure_ref_in t sn FIE srows st i0 row fr Hs En Hr) as [_ Href]. rewrite Href in Hp.
+    assert (Hun : upper (name_idx sn (S i0)) = name_idx sn (S i0)) by now rewrite name_idx_upper, Hup.
+    pose proof (sn_is_msh12 sn H3 Hup Hmsh (S i0)) as M12. pose proof (sn_not_msh12 sn H3 Hup Hmsh (S i0)) as N12.
+    destruct fr as [inf0|inf0| |]; try contradiction.
+    + pose proof (field_ctor_ref t (name_idx sn (S i0)) (SLeaf inf0) _ inf Hun (leaf_structure t inf0)) as Hct.
+      cbn [st_dt st_info] in Hct.
+      destruct (i_dt inf0) as [b|] eqn:Ei.
+      * destruct K as [Hb| ->].
+        -- apply (parse_field_base_shape r _ _ inf (Some (name_idx sn (S i0))) b _ x Hct M12 N12 Hb); auto.
+           unfold is_varies, opt_eqb. destruct (streqb_spec b (unbs "varies")) as [->|]; [|reflexivity].
+           assert (X : base (Some (unbs "varies")) = true) by exact Hb. rewrite Hvar in X. discriminate.
+        -- apply (parse_field_varies_shape r _ _ inf (Some (name_idx sn (S i0))) _ _ x Hct M12 N12); auto.
+      * apply (parse_field_varies_shape r _ _ inf (Some (name_idx sn (S i0))) _ _ x Hct M12 N12); auto.
+    + destruct K as [D [rows [Hdt [HlD Hg]]]].
+      destruct (parse_structure_dt t inf0 D rows Hdt HlD (proj1 (proj2 Hg)) (good_struct_resolved t D rows Hg)) as [st' [Hps [Hinfo' Hs']]].
+      pose proof (field_ctor_ref t (name_idx sn (S i0)) (SSeqDt inf0) st' inf Hun Hps) as Hct.
+      cbn [st_dt] in Hct. rewrite Hinfo', Hdt in Hct.
+      apply (parse_field_complex_shape D rows st' Hg Hs' (HnoC row inf0 D rows (nth_error_In _ _ En) Hr Hdt HlD)
+               r _ _ inf (Some (name_idx sn (S i0))) x Hct M12 N12 Hp).
+  - (* beyond the defined positions *)
+    intros i Hi. split.
+    + unfold ref_in. now rewrite (rs_ordered _ _ _ _ _ Hs), (rs_beyond _ _ _ _ _ Hs i Hi).
+    + intros r x Hp. pose proof (field_ctor_beyond sn i inf H3 Hup Hz (Hnof i Hi)) as Hct.
+      pose proof (sn_is_msh12 sn H3 Hup Hmsh i) as M12.
+      destruct inf.
+      * apply (parse_field_varies_shape r _ _ true (Some (name_idx sn i)) _ _ x Hct M12 (sn_not_msh12 sn H3 Hup Hmsh i)); auto.
+      * apply (parse_field_varies_shape r _ _ false None _ _ x Hct M12 eq_refl); auto.
+  - exact (rs_ordered _ _ _ _ _ Hs).
+Qed.
+
+End TableShape.
+
+(* ---------- Z-segments ---------- *)
+Section ZShape.
+Variables a b : byte.
+Hypothesis Hup : upper (zname a b) = zname a b.
+Hypothesis Hnf : forall i, slookup (name_idx (zname a b) i) (t_fields t) = None.
+
+Theorem parse_z_segment_shape text s : seg_name_of text = zname a b ->
+  parse_segment t TOLERANT e leaf text None = Ok s -> seg_shape t s.
+Proof.
+  intros Hname. unfold parse_segment. rewrite Hname, (mk_segment_z t a b Hup). cbn [bind]. unfold zseg0.
+  change 0%N with (N.of_nat 0).
+  apply (parse_segment_in_shape (zname a b) zst true 0 (z_no_msh a b Hup) eq_refl); auto.
+  - intros i Hi. lia.
+  - intros i Hi. split; [reflexivity|]. intros r x Hp.
+    destruct (st_path a b) eqn:Ep.
+    + pose proof (field_ctor_z_st t Hst a b Hup Hnf i Ep) as Hct.
+      apply (parse_field_base_shape r _ _ true (Some (zfn a b i)) (unbs "ST") _ x Hct (zfn_is_msh12 a b Hup i) (zfn_not_msh12 a b i) Hst eq_refl Hp).
+    + pose proof (field_ctor_z_var t a b Hup Hnf i Ep) as Hct.
+      apply (parse_field_varies_shape r _ _ true (Some (zfn a b i)) _ _ x Hct (zfn_is_msh12 a b Hup i) (zfn_not_msh12 a b i)); auto.
+Qed.
+
+End ZShape.
+
 End Shapes.
+
+(* ================================================================================== *)
+(* every subcomponent of a parsed tree comes from the subcomponent constructor, so its encoded
+   text is empty or an output of the leaf encoder                                       *)
+
+Section AllSubs.
+Variable t : tables.
+Variable lvl : level.
+Variable e : ec.
+Variable leaf : option str -> str -> result str.
+Variable Q : sub -> Prop.
+Hypothesis HQ : forall nm dt v ref x, mk_subcomponent t lvl leaf nm dt v ref = Ok x -> Q x.
+
+Definition comp_all (c : comp) : Prop := Forall Q (c_children c).
+Definition field_all (f : field) : Prop := Forall comp_all (f_children f).
+
+Lemma psa_all cdt st l : forall subs, parse_subcomponents_aux t lvl leaf cdt st l = Ok subs -> Forall Q subs.
+Proof.
+  induction l as [|[i s] rest IH]; intros subs H; cbn [parse_subcomponents_aux] in H.
+  - injection H as <-. constructor.
+  - destruct (base t cdt || opt_is_none cdt); cbn beta iota in H;
+      [ | destruct (has_map st); cbn beta iota in H;
+          [ destruct (ref_in st (name_idx (str_of_opt cdt) i)); cbn beta iota in H | ] ].
+    all: match type of H with (if materialise ?a ?b then _ else _) = _ => destruct (materialise a b) end;
+      [ match type of H with bind ?r _ = _ => destruct r as [x|] eqn:Hx; cbn [bind] in H; try discriminate end;
+        destruct (parse_subcomponents_aux t lvl leaf cdt st rest) as [xs|]; cbn [bind] in H; try discriminate;
+        injection H as <-; constructor; [eapply HQ; eauto|now apply IH]
+      | now apply IH ].
+Qed.
+
+Lemma pc_all text nm dt ref c : parse_component t lvl e leaf text nm dt ref = Ok c -> comp_all c.
+Proof.
+  unfold parse_component. intros H.
+  match type of H with bind ?r _ = _ => destruct r as [c0|] eqn:H0; cbn [bind] in H; try discriminate end.
+  assert (c_children c0 = []) as Hc0.
+  { destruct (mk_component t lvl nm dt ref) as [c1|[]] eqn:E; try discriminate;
+      try (injection H0 as <-; eapply mk_component_no_children; eauto).
+    destruct c1; try discriminate.
+    destruct (is_strict lvl); try discriminate. eapply mk_component_no_children; eauto. }
+  match type of H with bind ?r _ = _ => destruct r as [kids|] eqn:Hk; cbn [bind] in H; try discriminate end.
+  apply add_subs_appends in H. destruct H as [H _]. unfold comp_all. rewrite H.
+  assert (c_children (if negb (is_strict lvl) && base t (c_dt c0) && Nat.ltb 1 (length kids)
+                      then mk_comp (c_name c0) None (c_st c0) (c_children c0) else c0) = []) as ->.
+  { destruct (_ && _); auto. }
+  cbn [app]. unfold parse_subcomponents in Hk. now apply psa_all in Hk.
+Qed.
+
+Lemma pca_all fdt st l : forall comps, parse_components_aux t lvl e leaf fdt st l = Ok comps -> Forall comp_all comps.
+Proof.
+  induction l as [|[i s] rest IH]; intros comps H; cbn [parse_components_aux] in H.
+  - injection H as <-. constructor.
+  - destruct (base t fdt); cbn beta iota in H;
+      [ | destruct (opt_is_none fdt || is_varies fdt); cbn beta iota in H ].
+    all: match type of H with (if ?b then _ else _) = _ => destruct b end;
+      [ match type of H with bind ?r _ = _ => destruct r as [x|] eqn:Hx; cbn [bind] in H; try discriminate end;
+        destruct (parse_components_aux t lvl e leaf fdt st rest) as [xs|]; cbn [bind] in H; try discriminate;
+        injection H as <-; constructor; [eapply pc_all; eauto|now apply IH]
+      | now apply IH ].
+Qed.
+
+Lemma pf_all text name ref fv f : parse_field t lvl e leaf text name ref fv = Ok f -> field_all f.
+Proof.
+  unfold parse_field. intros H.
+  match type of H with bind ?r _ = _ => destruct r as [f0|] eqn:H0; cbn [bind] in H; try discriminate end.
+  assert (f_children f0 = []) as Hf0.
+  { destruct (mk_field t lvl name None ref) as [f1|[]] eqn:E; try discriminate;
+      try (injection H0 as <-; eapply mk_field_no_children; eauto).
+    destruct c; try discriminate.
+    destruct fv; eapply mk_field_no_children; eauto. }
+  destruct (is_msh12 name).
+  - match type of H with bind ?r _ = _ => destruct r as [s|] eqn:Hs; cbn [bind] in H; try discriminate end.
+    match type of H with bind ?r _ = _ => destruct r as [c0|] eqn:Hc0; cbn [bind] in H; try discriminate end.
+    match type of H with bind ?r _ = _ => destruct r as [c|] eqn:Hc; cbn [bind] in H; try discriminate end.
+    apply add_comps_appends in H. destruct H as [H _].
+    apply add_subs_appends in Hc. destruct Hc as [Hc _].
+    apply mk_component_no_children in Hc0. unfold field_all. rewrite H, Hf0. cbn [app].
+    constructor; [|constructor]. unfold comp_all. rewrite Hc, Hc0. cbn [app]. constructor; [eapply HQ; eauto|constructor].
+  - match type of H with bind ?r _ = _ => destruct r as [kids|] eqn:Hk; cbn [bind] in H; try discriminate end.
+    apply add_comps_appends in H. destruct H as [H _]. unfold field_all. rewrite H.
+    assert (f_children (if negb (is_strict lvl) && base t (f_dt f0) && Nat.ltb 1 (length kids)
+                        then mk_field_rec (f_name f0) None (f_st f0) (f_children f0) else f0) = []) as ->.
+    { destruct (_ && _); auto. }
+    cbn [app]. unfold parse_components in Hk. now apply pca_all in Hk.
+Qed.
+
+Lemma pr_all reps name ref fv : forall fs, parse_reps t lvl e leaf reps name ref fv = Ok fs -> Forall field_all fs.
+Proof.
+  induction reps as [|r rest IH]; intros fs H; cbn [parse_reps] in H.
+  - injection H as <-. constructor.
+  - destruct (parse_field t lvl e leaf r name ref fv) as [x|] eqn:Hx; cbn [bind] in H; try discriminate.
+    destruct (parse_reps t lvl e leaf rest name ref fv) as [xs|]; cbn [bind] in H; try discriminate.
+    injection H as <-. constructor; [eapply pf_all; eauto|now apply IH].
+Qed.
+
+Lemma pfa_all prefix st fv l : forall fs, parse_fields_aux t lvl e leaf prefix st fv l = Ok fs -> Forall field_all fs.
+Proof.
+  induction l as [|[i f] rest IH]; intros fs H; cbn [parse_fields_aux] in H.
+  - injection H as <-. constructor.
+  - match type of H with bind ?r _ = _ => destruct r as [here|] eqn:Hh; cbn [bind] in H; try discriminate end.
+    destruct (parse_fields_aux t lvl e leaf prefix st fv rest) as [xs|]; cbn [bind] in H; try discriminate.
+    injection H as <-. apply Forall_app. split; [|now apply IH].
+    destruct (negb (is_blank f)).
+    + destruct (streqb (upper (name_idx prefix i)) (unbs "MSH_2")); eapply pr_all; exact Hh.
+    + destruct (streqb (upper (name_idx prefix i)) (unbs "MSH_1")); [eapply pr_all; exact Hh|].
+      injection Hh as <-. constructor.
+Qed.
+
+Theorem parse_segment_all text reference s :
+  parse_segment t lvl e leaf text reference = Ok s -> Forall field_all (s_children s).
+Proof.
+  unfold parse_segment, parse_segment_in, parse_fields. intros H.
+  destruct (mk_segment t (seg_name_of text) reference) as [s0|] eqn:H0; cbn [bind] in H; try discriminate.
+  match type of H with bind ?r _ = _ => destruct r as [kids|] eqn:Hk; cbn [bind] in H; try discriminate end.
+  apply add_fields_appends in H. destruct H as [H _]. apply mk_segment_no_children in H0. rewrite H, H0. cbn [app].
+  eapply pfa_all. exact Hk.
+Qed.
+
+End AllSubs.
+
+(* the encoded text of a constructed subcomponent is empty or an output of the leaf encoder *)
+Lemma mk_subcomponent_enc t lvl leaf nm dt v ref x :
+  mk_subcomponent t lvl leaf nm dt v ref = Ok x -> sc_enc x = [] \/ exists d, leaf d v = Ok (sc_enc x).
+Proof.
+  unfold mk_subcomponent. intros H.
+  destruct (_ && _) in H; try discriminate.
+  match type of H with bind ?r _ = _ => destruct r as [[[? ?] ?]|]; cbn [bind] in H; try discriminate end.
+  destruct v as [|b v']; [injection H as <-; now left|].
+  match type of H with bind ?r _ = _ => destruct r eqn:El; cbn [bind] in H; try discriminate end.
+  injection H as <-. right. cbn [sc_enc]. eauto.
+Qed.
+
+(* if the leaf encoder never emits a separator, every parsed tree is clean *)
+Lemma parse_segment_clean t lvl e leaf text reference s :
+  (forall d v x, leaf d v = Ok x -> sep_free e x) ->
+  parse_segment t lvl e leaf text reference = Ok s -> seg_clean e s.
+Proof.
+  intros HL H.
+  pose proof (parse_segment_all t lvl e leaf (sub_clean e)) as A.
+  assert (HQ : forall nm dt v ref x, mk_subcomponent t lvl leaf nm dt v ref = Ok x -> sub_clean e x).
+  { intros nm dt v ref x Hx. destruct (mk_subcomponent_enc t lvl leaf nm dt v ref x Hx) as [E|[d E]].
+    - unfold sub_clean. rewrite E. repeat split.
+    - exact (HL d v _ E). }
+  specialize (A HQ text reference s H). rewrite Forall_forall in A.
+  intros f Hf c Hc. specialize (A f Hf). unfold field_all in A. rewrite Forall_forall in A. exact (A c Hc).
+Qed.
+
+(* the real leaf encoder never emits a separator: every output is an `escape` output (C06) *)
+From HL7 Require Import Model.Escape Model.Leaf Gen.Params Proofs.EscapeFacts Proofs.EscapeCover.
+
+Lemma family_in f : In (family f) esc_families.
+Proof.
+  unfold family. destruct (nth_in_or_default f esc_families esc_family_0) as [H|H]; [exact H|].
+  rewrite H. now left.
+Qed.
+
+Lemma escape_sep_free p e s : In p esc_families -> ec_valid p e = true -> sep_free e (escape p e s).
+Proof.
+  intros Hp He.
+  assert (L : forallb letters_ok esc_families = true) by (vm_compute; reflexivity).
+  assert (C : forallb covers esc_families = true) by (vm_compute; reflexivity).
+  pose proof (forallb_In _ _ _ L Hp) as Lp. pose proof (forallb_In _ _ _ C Hp) as Cp.
+  repeat split; apply escape_no_delims; auto.
+  - apply covers_four with (s := FIELD); simpl; auto.
+  - apply covers_four with (s := COMPONENT); simpl; auto.
+  - apply covers_four with (s := REPETITION); simpl; auto 6.
+  - apply covers_four with (s := SUBCOMPONENT); simpl; auto 6.
+Qed.
+
+Lemma leaf_enc_sep_free v e d s x : ec_valid esc_family_0 e = true ->
+  leaf_enc v TOLERANT e d s = Ok x -> sep_free e x.
+Proof.
+  intros He. unfold leaf_enc. destruct d as [d|]; [|discriminate].
+  destruct (dt_row v d) as [[k mx]|]; [|discriminate].
+  assert (St : In (st_family v) esc_families).
+  { unfold st_family. destruct (dt_row v (unbs "ST")) as [[[f| | | | | | |] ?]|]; try (now left). apply family_in. }
+  destruct k as [f|f| | | | | |]; cbn [is_strict andb]; intros H; injection H as <-;
+    apply escape_sep_free; auto using family_in.
+Qed.
